@@ -288,7 +288,7 @@ type vfc14Server struct {
 	wg            sync.WaitGroup
 }
 
-func newVfc14Server(c *vfc14Case, run *vfc14Exec) *vfc14Server {
+func vfc14NewServer(c *vfc14Case, run *vfc14Exec) *vfc14Server {
 	s := &vfc14Server{c: c, run: run, corrs: map[int32]int{}, measuring: true, firstFault: -1}
 	s.cond = sync.NewCond(&s.mu)
 	s.idle = time.Duration(vfcore.EnvInt("VF_C14_IDLE_MS", 30)) * time.Millisecond
@@ -945,7 +945,7 @@ func vfc14Execute(c *vfc14Case) *vfc14History {
 			x.calls[g][n] = vfc14CallRec{Caller: g, N: n, Kind: cl.Kind, Version: cl.Version, Token: vfc14Token(g, n)}
 		}
 	}
-	srv := newVfc14Server(c, x)
+	srv := vfc14NewServer(c, x)
 	x.srv = srv
 	const addr = "vfc14-broker:9092"
 	vnet := newVfNet()
@@ -1326,9 +1326,6 @@ func vfc14Run(ci interface{}, r *vfcore.Rec) *vfcore.Failure {
 	f := vfc14Judge(c, h)
 	if h.Partial != "" {
 		r.Class("partially_judged:unexpected_read_timeout")
-		if f == nil && vfcore.EnvInt("VF_C14_DEBUG_PARTIAL", 0) == 1 {
-			return &vfcore.Failure{Symptom: "debug-partial", Message: h.Partial, History: h}
-		}
 	}
 	return f
 }
